@@ -1,4 +1,4 @@
-(* C12 - HSplit/VSplit divide_pinned the available space.
+(* C12 - HSplit/VSplit divide the available space.
 
    Model of (as coded in /repo):
      layout/dimension.py   Dimension.__init__, sum_layout_dimensions,
@@ -501,14 +501,15 @@ Definition sx_dres (r : dres) (regs : list (Z * Z * Z)) : sx :=
 Definition nat_of_Z (z : Z) : nat := Z.to_nat z.
 
 (* case:
-     (0 orient done align pad children avail start fuel)   split: divide_pinned + draw
+     (0 orient done align pad children avail start fuel)   split: divide + draw
      (1 children)                                          sum_layout_dimensions
      (2 children)                                          max_layout_dimensions
      (3 weights n)                                         first n of take_using_weights(range, weights)
      (4 ...as 0...)                                        split as it was before the zero-weight fix (pinned)
      (5 orient done align pad pool avail start fuel steps) renders of one split whose children list (ids into pool) is edited in between
-     (6 orient axis align pad widths heights width fuel)   preferred_width / preferred_height reported by a split
+     (6 orient axis align pad widths heights width fuel ov) preferred_width / preferred_height reported by a split (ov: width=/height= override)
      (7 rawdim cp dont_extend)                             Window._merge_dimensions
+     (9 axis rawdim cp dont_extend margin ignore)          Window.preferred_width / preferred_height (window_preferred)
    children = list of raw dimensions; a raw dimension whose constructor
    raises makes the whole case answer (4) / (5) (first in list order; the
    padding is constructed before the children). *)
